@@ -36,7 +36,9 @@ SOUP = ['1', '2', '0.5', '007', '1E+2', '"a"', '"x""y"', 'TRUE', '#N/A', '#REF!'
         'ANCHORARRAY(', '_xlfn.ANCHORARRAY(', 'INDIRECT("', '_xlfn.SINGLE(', '_xlfn.', 'A:A', '1:1',
         'R1C1', 'R[1]C[1]', 'A1#', "'S 1'!", '[1]S!', "'[B.xlsx]S'!", '#ref!', '#NULL!',
         'ANCHORARRAY(A1)', 'ANCHORARRAY(A1:B2)', '_xlfn.ANCHORARRAY(A:A)', 'ANCHORARRAY(name)',
-        'INDIRECT("A1")', 'INDIRECT("A1:B2")', 'INDIRECT("x y")', '_xlfn.SINGLE(A1:B2)']
+        'INDIRECT("A1")', 'INDIRECT("A1:B2")', 'INDIRECT("x y")', '_xlfn.SINGLE(A1:B2)',
+        "'a-b'!A1", "'2020'!A1", "'it''s'!A1", 'XFD1048576', '$XFD$1048576', 'A1:XFD1048576', 'FALſE', 'tRUE',
+        'LOG10(', 'A1(', 'LOG10', 'ſ', 'K']
 PRINTABLE = [chr(c) for c in range(32, 127)] + ['é', 'ß', '€', '中', ' ']
 
 
@@ -125,6 +127,18 @@ def fuzz(rep):
         else:
             t = formgen.rnd_tree(rnd, rnd.randint(1, 4))
             texts.append(mutate(rnd, formgen.text(t, None, 'min')))
+    # one spelling used both as a function and as an operand (a cell-like function name such
+    # as LOG10( or A1(, or a defined name that is also a function) in one formula
+    CLASH = ['LOG10', 'A1', 'B2', 'SUM', 'IF', 'ABS', 'foo', 'ATAN2', 'T']
+    for i in range(max(200, n // 12)):
+        nm = rnd.choice(CLASH)
+        call = '%s(%s)' % (nm, ','.join(rnd.choice(['1', 'A1', '', '"a"', nm]) for _ in range(rnd.randint(0, 2))))
+        other = rnd.choice([nm, '$' + nm, nm.lower(), nm + ':' + nm])
+        op = rnd.choice(['+', '&', ',', ' ', '*', '=', ':'])
+        shape = rnd.randrange(5)
+        t = ['=%s%s%s' % (call, op, other), '=%s%s%s' % (other, op, call), '=IF(%s,%s)' % (call, other),
+             '=(%s%s%s)*2' % (call, op, other), '=SUM(%s,1)&%s' % (call, other)][shape]
+        texts.append(t)
     texts = sorted(set(texts))
     rnd.shuffle(texts)
     out = []
@@ -137,7 +151,9 @@ def fuzz(rep):
         for text, rec, exc in out:
             if rec['outcome'] == 'escape':
                 rep.count()
-                rep.violation({'kind': 'escape', 'exception': exc, 'text': text},
+                last_cell = exc == 'InvalidRangeName' and 'XFD1048576' in text.upper().replace('$', '')
+                rep.violation({'cat': 'last-cell-of-the-sheet-as-operand-of-a-reference-operator'} if last_cell else
+                              {'kind': 'escape', 'exception': exc, 'text': text},
                               {'text': text, 'exception': exc,
                                'how': 'formulas.Parser().ast(text)'})
                 continue
